@@ -121,7 +121,11 @@ def stage(ctx):
 
         looks_like_error = (not text) or text.startswith("FAIL") or _re.search(r"\(\d+\):\d+", text) is not None
         if rc == 0 and not looks_like_error:
-            rc2, so2, se2 = run_bin([D.repo_bin("opc"), text], c["dir"])
+            # through a file: a printed value such as -81 would otherwise be taken for a command line option
+            tf = c["main"] + ".runO.txt"
+            with open(tf, "w") as f:
+                f.write(text + "\n")
+            rc2, so2, se2 = run_bin([D.repo_bin("opc"), tf], c["dir"])
             r["run_O"] = so2.strip() if rc2 == 0 else None
             r["run_O_text"] = text[:200]
         else:
@@ -171,7 +175,10 @@ def stage(ctx):
             # listed finding: with the frontend optimiser on (cl22) unbound-looking generated names such as
             # v2_$_1606 are emitted as string constants, so the bytes carry the fresh-name counter
             sig = None
-            if c["dialect"] == "cl22" and all("5f245f" in v for v in vals.values()):
+            if c["dialect"] == "cl22" and (all("5f245f" in v for v in vals.values()) or c.get("cl22_stable_without_frontend_opt")):
+                # either every route's bytes literally contain _$_, or the counterfactual holds: the same program built with the
+                # frontend optimiser off is identical under two values of the name counter (values computed from generated names
+                # do not contain the name itself)
                 sig = "cl22:frontend-optimiser-emits-generated-names"
             m["violations"].append(dict({"kind": "entry_points_emit_different_programs", "sig": sig, "groups": groups, "first_difference_at_hex_char": first_diff,
                                          "a": vs[0][max(0, (first_diff or 0) - 20):(first_diff or 0) + 60], "b": vs[1][max(0, (first_diff or 0) - 20):(first_diff or 0) + 60]}, **ctxrec))
